@@ -8,6 +8,10 @@ oracle      independent abstract history kept by the runner: success => exactly 
             entries unchanged (JSON objects compared), tree = the state the history implies (snapshots taken after every
             successful operation); failure => tree and history unchanged; undo only while applied, redo only while undone.
             A sequence is evaluated up to its first oracle failure (after a defect the workspace is no longer specified).
+dirs        workspace W5 (a directory whose name contains the term, holding a file that is edited but not renamed, next to a
+            top-level edited file): every sequence of up to four commands one second apart over {A, S = one->three, undo
+            latest|#0|#1, redo latest|#0}, same-second bursts after A, random sequences; the model runs it on its directory
+            instance (RModel/Model/HistoryTreeDir.lean)
 bursts      rename, then every sequence of undo / redo by `latest`, by #0 and by #2 issued within ONE second, 4 commands deep (quick: after A';
             thorough: also by #2 for redo, after A, A', B, the first one in the same or the next second)
 sequences   corpus first; exhaustive over {rename A, A', B, undo latest|#0|#1, redo latest|#0} x {same second, next second}
@@ -33,14 +37,19 @@ from .common import hexs
 T0 = 1_800_000_000
 GITIGNORE = b"# Renamify workspace\n.renamify/\n"       # what auto-init writes; keeps C09's finding out of this check
 TERMS = {"A": ("foo_bar", "baz_qux"), "A'": ("foo", "foo_bar"), "B": ("alpha", "gamma"),
-         "P": ("ab", "c"), "Q": ("a", "bc")}
+         "P": ("ab", "c"), "Q": ("a", "bc"), "S": ("one", "three")}
 WORKSPACES = {
     "W1": {"f1.txt": "foo_bar one\n", "f2.txt": "alpha x\n", "f3.txt": "use foo_bar and alpha\n"},
     "W2": {"f1.txt": "foo_bar one\n", "f2.txt": "alpha x\n"},
     "W3": {"f1.txt": "foo_bar foo_bar\nalpha two\n", "f2.txt": "alpha x\n", "f3.txt": "use foo_bar and alpha\n"},
     "W4": {"g.txt": "ab a\n"},
+    # a directory whose NAME contains the term, holding a file that is edited but not renamed itself, and a top-level
+    # edited file that sorts before it: A edits both files and renames the directory; S (one -> three) shifts A's match
+    # in the in-directory file without touching the top-level one
+    "W5": {"a.txt": "foo_bar top\n", "foo_bar_dir/inner.txt": "one foo_bar x\n", "z.txt": "alpha z\n"},
 }
 ALPHABET = ["A", "A'", "B", "ul", "u0", "u1", "rl", "r0"]
+ALPHABET_W5 = ["A", "S", "ul", "u0", "u1", "rl", "r0"]
 CORPUS = os.path.join(common.ROOT, "corpus", "C10")
 
 
@@ -74,11 +83,14 @@ def read_history(d):
 
 
 def user_tree(d):
-    """name -> bytes for the user files (flat workspaces); `.rej` bodies canonicalised"""
+    """relative path -> bytes for the user files (directories are implicit); `.rej` bodies canonicalised"""
     snap = common.snapshot(d, exclude=(".renamify", ".gitignore", ".xdg-none"))
     out = {}
     for k, v in snap.items():
-        if v[0] != "f":
+        if v[0] == "d":
+            if not any(k2.startswith(k + "/") for k2 in snap):
+                out[k + "/"] = b"<empty dir>"
+        elif v[0] != "f":
             out[k] = b"<" + v[0].encode() + b">"
         else:
             out[k] = b"REJ" if k.endswith(".rej") else v[2]
@@ -128,6 +140,7 @@ def setup_ws(d, ws):
     with open(os.path.join(d, ".gitignore"), "wb") as fh:
         fh.write(GITIGNORE)
     for k, v in WORKSPACES[ws].items():
+        os.makedirs(os.path.dirname(os.path.join(d, k)), exist_ok=True)
         with open(os.path.join(d, k), "w") as fh:
             fh.write(v)
 
@@ -220,7 +233,9 @@ class Oracle:
             e = new[0]
             if e.get("revert_of"):
                 return "rename_recorded_as_revert", {}
-            want = {f: c.replace(s.encode(), r.encode()) for f, c in t0.items()}
+            # contents, and the names of the directories on the way (file names carry no term in these workspaces)
+            want = {(os.path.dirname(f).replace(s, r) + "/" + os.path.basename(f) if "/" in f else f):
+                    c.replace(s.encode(), r.encode()) for f, c in t0.items()}
             if t1 != want:
                 return "rename_result", {"tree_diff": _tdiff(want, t1)}
             self.ops[e["id"]] = {"applied": True, "pre": dict(t0), "post": dict(t1), "last": self.order}
@@ -654,6 +669,35 @@ def run(ctx):
         return
     ctx.sample({"workspace": "W1", "sequence": seq_str(bres[-1].seq), "observed": bres[-1].pieces[-1][:120]})
 
+    # ---- the directory workspace W5: exhaustive one second apart, same-second bursts after A ------------------------------
+    w5_depth = 4
+    w5_pref = [[(c, 0), (c2, 1)] for c in ALPHABET_W5 for c2 in ALPHABET_W5]
+
+    def w5task(prefix, depth, alpha, dts):
+        def go(d):
+            out = []
+            explore(d, "W5", prefix, depth, out, None, alpha, dts)
+            return out
+        return go
+    tasks = [w5task(pf, w5_depth, ALPHABET_W5, (1,)) for pf in w5_pref]
+    tasks += [(lambda d, c=c: [run_sequence(d, "W5", [(c, 0)])]) for c in ALPHABET_W5]
+    if ctx.thorough:   # also both spacings up to three commands
+        tasks += [w5task([(c, 0), (c2, 0)], 3, ALPHABET_W5, (0, 1)) for c in ALPHABET_W5 for c2 in ALPHABET_W5]
+    w5_burst = ["ul", "rl", "u0", "r0", "u2"]
+    tasks += [w5task([("A", 0), (c1, 0)], 1 + (4 if ctx.thorough else 3), w5_burst, (0,)) for c1 in w5_burst]
+    w5res, seen5 = [], set()
+    for ch in run_parallel(tasks):
+        for r in ch:
+            key = seq_str(r.seq)
+            if key not in seen5:
+                seen5.add(key)
+                w5res.append(r)
+    w5res.sort(key=lambda r: (len(r.seq), seq_str(r.seq)))
+    ctx.count("w5:sequences", len(w5res))
+    if judge(ctx, w5res):
+        return
+    ctx.sample({"workspace": "W5", "sequence": seq_str(w5res[-1].seq), "observed": w5res[-1].pieces[-1][:160]})
+
     # ---- random, longer ------------------------------------------------------------------------------
     n_rand = 400 if ctx.thorough else 40
     rseqs = []
@@ -665,6 +709,8 @@ def run(ctx):
             # bias towards sequences that stay inside the guard for a while: next second more often than same second
             seq.append((rng.choice(ALPHABET), 1 if rng.random() < 0.8 else 0))
         rseqs.append((ws, seq))
+    for _ in range(n_rand // 4):
+        rseqs.append(("W5", [(rng.choice(ALPHABET_W5), 1 if rng.random() < 0.8 else 0) for _ in range(rng.randint(4, 10))]))
     rres = run_parallel([(lambda d, ws=ws, seq=seq: run_sequence(d, ws, seq)) for ws, seq in rseqs])
     for r in rres:
         ctx.count("random:executed_steps", len(r.pieces))
